@@ -104,9 +104,19 @@ def run(ctx: Ctx):
             ctx.count(f"exhaustive:{fam}:alphabet={len(alpha)}:depth={depth}", len(alpha) ** depth)
             for k, ops in enumerate(rig.exhaustive(alpha, depth)):
                 yield f"exh{fam}{depth}:{k}", {"surface": "fs", "restore_duration": 1 if fam != "B" else None, "ops": ops}
+        depth = ctx.scale(3, 4)
+        ctx.count(f"exhaustive:C:alphabet={len(rig.api_alphabet())}:depth={depth}", len(rig.api_alphabet()) ** depth)
+        for k, ops in enumerate(rig.exhaustive(rig.api_alphabet(), depth)):
+            yield f"exhC{depth}:{k}", {"surface": "fs", "restore_duration": 1, "ops": ops}
         rng = ctx.rng.fork("fs")
         for k in range(ctx.scale(1500, 30000)):
             yield f"gen:{k}", rig.gen_case(rng, max_ops=ctx.scale(30, 60))
+        rng2 = ctx.rng.fork("fs-api")
+        for k in range(ctx.scale(1500, 30000)):
+            yield f"genapi:{k}", rig.gen_case(rng2, max_ops=ctx.scale(30, 60), api=True)
+        rng3 = ctx.rng.fork("fs-churn")
+        for k in range(ctx.scale(1200, 20000)):
+            yield f"churn:{k}", rig.gen_churn_case(rng3)
 
     state = {"agree": 0, "total": 0, "reported": 0, "t_impl": 0.0, "t_model": 0.0}
 
@@ -142,7 +152,7 @@ def run(ctx: Ctx):
                 ctx.count(f"answer:{op[0]}:{s}")
             if ci == cm and not any(verdicts):
                 state["agree"] += 1
-                if name.startswith("gen:"):
+                if name.startswith("gen"):
                     ctx.sample({"case": name, "surface": case["surface"], "lines": lines_all[st + 2:st + 10], "answers": cm[2:10]}, cap=3)
                 continue
             if state["reported"] < 5:  # shrink and report the first few; the rest are counted
